@@ -3,6 +3,7 @@ module verif/sim
 go 1.26.8
 
 require (
+	github.com/anishathalye/porcupine v1.3.0
 	github.com/cockroachdb/errors v1.11.3
 	github.com/cockroachdb/pebble v1.1.5
 	github.com/ethereum/go-ethereum v1.15.8
